@@ -294,6 +294,15 @@ pub fn observe(m: &Machine) -> Obs {
 }
 
 /// Read every public getter (the "state can be read" half of C13) and fold into a hash.
+/// `{:?}` of the machine and its parts (Debug is derived / implemented by the tree): "whose state
+/// can be read" includes printing it; only the length is kept (addresses, float noise)
+pub fn debug_render(m: &Machine) -> u64 {
+    let a = format!("{:?}", m);
+    let b = format!("{:?}{:?}{:?}", m.bus(), m.bus().board(), m.registers());
+    let c = format!("{:?}{:?}", m.signals(), m.state());
+    (a.len() + b.len() + c.len()) as u64
+}
+
 pub fn read_everything(m: &Machine) -> u64 {
     use crate::driver::mix;
     let mut h = 0u64;
